@@ -38,7 +38,7 @@ theorem history_cmd_eq_node (m : Int) (b : Broker) (req : HistReq) (now : Nat) (
 /-- the memory broker never returns more publications than a non-negative limit -/
 theorem hub_get_length_le (h : Hub) (ch : String) (f : Filter) (mt nowS : Nat) (hl : 0 ≤ f.limit) :
     (h.get ch f mt nowS).2.1.length ≤ f.limit.toNat := by
-  unfold Hub.get
+  unfold Hub.get Hub.getCore
   simp only
   split
   · simp
